@@ -10,8 +10,8 @@ CHECKS["C13"] = (
  "DESIGN.md §4 C13")
 CHECKS["C01"] = (
  "hostile-input workloads under panic/fatal-error, pointer-range, call-bound, sticky-end and stack monitors in child processes (runtime monitoring)",
- "{Q} (quick) / {T} (thorough) hostile byte strings are fed to 14 streaming entry points x 4 Input constructors and to js.Parse x 4 Options; every call runs under recover(), children are watched for fatal errors, every slice handed out is classified against the input buffer, the number of calls until the terminal report is bounded by 4*len+64, the terminal report must repeat, error offsets (hook H1) must lie inside the input, accepted trees are printed/walked/converted, and 69 recursive constructs are nested 10^3..10^6 deep with the stack high-water measured. Held on what was observed.",
- "A hang is decided by CPU time (90 s in a batch, 600 s alone). 'Terminal report' is read as an Error result that does not advance the cursor and repeats identically (weakest reading covering sticky lexer errors such as XML NUL).",
+ "{Q} (quick) / {T} (thorough) hostile byte strings are fed to 14 streaming entry points x 4 Input constructors and to js.Parse x 4 Options; every call runs under recover(), children are watched for fatal errors, every slice handed out is classified against the input buffer, the number of calls until the terminal report is bounded by 4*len+64, the terminal report must repeat, error offsets (hook H1) must lie inside the input, accepted trees are printed/walked/converted, and 105 recursive constructs are nested 10^3..10^6 deep with the stack high-water measured. Held on what was observed.",
+ "A hang is decided by CPU time (90 s in a batch, 600 s alone). 'Terminal report' is read as an Error result that does not advance the cursor and repeats identically (weakest reading covering sticky lexer errors such as XML NUL); once a report carried io.EOF every further call must be an error result with io.EOF again.",
  "DESIGN.md §4 C01")
 CHECKS["C14"] = (
  "differential monitors against strconv/math/big on boundary-centred generated inputs, dst canaries (runtime monitoring)",
